@@ -181,6 +181,15 @@ def run_closed(ctx, docs, p_ra=0.3):
             nt = run["out"][0] == "ok" and len(run["out"][1]) >= 2
             ctx.case("find-closed", (d, ra), nt, dict(text=d, remove_ambiguous=ra) if nt and len(ctx.samples) < 10 else None)
             ctx.count("find-closed document")
+            # the premises the closed theorems keep (search_ok, short_page_ok): checked on every recorded call / token
+            bad = P.check_contract(run["rec"])
+            if bad:
+                ctx.divergences.append(("search-contract", "a regex match violates the span contract assumed by the closed "
+                                        "theorems: " + repr(bad[0])[:300], dict(text=d)))
+            badt = P.check_tokens(run["words"])
+            if badt:
+                ctx.divergences.append(("token-contract", "a special token violates the regex facts assumed by the closed "
+                                        "theorems: " + repr(badt[0])[:300], dict(text=d)))
             if run["out"][0] == "ok":
                 exp = "(Ok [" + "; ".join(P.canon_term(P.canon_py(c, edmap)) for c in run["out"][1]) + "])"
             else:
